@@ -47,6 +47,36 @@ def table():
     return sorted(set(pos + [p | SIGN for p in pos]))
 
 
+
+def build_header_only(name, extra_flags=()):
+    """Compile harness/<name>.cc against the HEADERS of the working tree only (the code under
+    test is header-only: no libvita.a needed, which saves the 28-file library build).  Cached
+    by the hash of the source tree, the harness and the flags."""
+    import hashlib
+    import time
+    out = os.path.join(C.BUILD, "asan")
+    os.makedirs(out, exist_ok=True)
+    src = os.path.join(C.ROOT, "harness", name + ".cc")
+    exe = os.path.join(out, name)
+    flags = C.cxx_flags("asan") + ["-I" + os.path.join(C.ROOT, "harness")] + list(extra_flags)
+    h = hashlib.sha256()
+    h.update(C.repo_tree_hash(" ".join(flags)).encode())
+    for s in (src, os.path.join(C.ROOT, "harness", "common", "verif.h")):
+        h.update(open(s, "rb").read())
+    key = h.hexdigest()
+    stamp = exe + ".stamp"
+    if os.path.exists(exe) and os.path.exists(stamp) and open(stamp).read() == key:
+        return exe
+    t0 = time.time()
+    rc, so, se = C.sh(["g++"] + flags + [src, "-o", exe])
+    if rc != 0:
+        raise RuntimeError("harness %s does not compile against the working tree:\n%s" % (name, se[-6000:]))
+    with open(stamp, "w") as f:
+        f.write(key)
+    C.log("[build] harness %s (asan, header-only) built in %.1fs" % (name, time.time() - t0))
+    return exe
+
+
 # ---------------------------------------------------------------------------
 # independent reference (Python floats are IEEE doubles)
 # ---------------------------------------------------------------------------
@@ -241,7 +271,7 @@ def run(chk, replay=None):
     else:
         chk.obligations = max(chk.obligations, 1)
 
-    exe = C.build_harness("c18_fitness", "asan")
+    exe = build_header_only("c18_fitness")
 
     # ---- inputs --------------------------------------------------------
     g = Gen(rng, T)
